@@ -787,6 +787,13 @@ func (c *CVMContract) execute(st engine.State, params engine.CallParams) ([]byte
 		case SELFDESTRUCT: // 0xFF
 			receiver := stack.PopAddress()
 			maybe.PushError(engine.UseGasNegative(params.Gas, engine.GasGetAccount))
+			if receiver == params.Callee {
+				// A contract that names itself as beneficiary: crediting the account that is then removed
+				// drops its coins from every balance while the recorded supply stays as it is (the chain
+				// cannot burn coins from inside the VM). As on Ethereum since EIP-6780, the contract keeps
+				// its balance and is not removed.
+				return nil, maybe.Error()
+			}
 			if engine.GetAccount(st.CallFrame, maybe, receiver) == nil {
 				// If receiver address doesn't exist, try to create it
 				maybe.PushError(engine.UseGasNegative(params.Gas, engine.GasCreateAccount))
